@@ -75,7 +75,14 @@ LineVerdict(e) ==
         (IF e.out.o = "err" /\ e.out.k = "Parse" THEN "skip:compile-error" ELSE "no")
     ELSE
     LET eng == IF Has(e, "eng") THEN e.eng ELSE <<>>
-        v == VerdictE(e.out, IF Has(e, "want_ast") THEN e.want_ast ELSE e.ast, e.inp, e.binds, eng)
+        tree == IF Has(e, "want_ast") THEN e.want_ast ELSE e.ast
+        v0 == VerdictE(e.out, tree, e.inp, e.binds, eng)
+        \* a result that depends on the member order of an object is compared as a multiset; when that fails the specification
+        \* abstains (what was done with the members afterwards may depend on their order) - except when the enumeration is
+        \* the outermost operation and nothing else in the program enumerates: then the result is a permutation of the
+        \* specified one, or the evaluation is wrong
+        v == IF v0 = "inc:member order" /\ tree.k = "Call" /\ tree.fn.k = "Variable" /\ tree.fn.nm \in {"each", "keys", "spread"}
+                   /\ ~MayVarySeq(tree.args) /\ ~HasCtorSeq(tree.args) THEN "no" ELSE v0
         f1 == IF (Has(e, "inp_same") /\ ~e.inp_same) \/ (Has(e, "inp_after") /\ e.inp_after # e.inp) THEN ";input-modified" ELSE ""
         f2 == IF (Has(e, "binds_same") /\ ~e.binds_same) \/ (Has(e, "binds_after") /\ e.binds_after # e.binds) THEN ";binds-modified" ELSE ""
         f3 == IF (Has(e, "ast_same") /\ ~e.ast_same) \/ (Has(e, "ast_after") /\ e.ast_after # e.ast) THEN ";ast-modified" ELSE ""
